@@ -2,7 +2,7 @@
 import numpy as np
 from . import common
 
-FREQS = [250.0, 500.0, 1000.0, 2000.0, 4000.0, 8000.0]
+FREQS = [31.5, 62.5, 125.0, 250.0, 500.0, 1000.0]      # third-octave style centres: not all whole numbers of Hz
 
 
 def pf():
